@@ -259,6 +259,10 @@ func (rw *rewriter) rewrite() {
 				rw.edits = append(rw.edits, edit{rw.off(se.Pos()), rw.off(se.End()), "simrt." + se.Sel.Name})
 				rw.rep.MutexTypes++
 				rw.usesSim = true
+			} else if se.Sel.Name == "Once" {
+				rw.edits = append(rw.edits, edit{rw.off(se.Pos()), rw.off(se.End()), "simrt.Once"})
+				rw.rep.MutexTypes++
+				rw.usesSim = true
 			} else if se.Sel.Name != "Locker" {
 				rw.rep.Unrewritten = append(rw.rep.Unrewritten, rw.where(se.Pos())+" sync."+se.Sel.Name)
 			}
